@@ -124,6 +124,48 @@ def run(ctx: Ctx) -> None:
                             bad.append(f"`{v}` from `{short(d.stmt, 40)}`")
         ctx.ob("R9.2", f"lexer:TokenStream.{name}|inspects only filtered tokens", not bad and inspected > 0,
                msg=f"{name} decides on a token that did not come through a filtering accessor ({bad[:2]}): a comment or blank in that gap changes the answer", node=fn, mod=lex)
+    # look-ahead accessors: the token obtained is either handed to the caller or put back, exactly once
+    for name, fn in meths.items():
+        if name in FILTERING or name.startswith("_") or name in ("current_location", "get_doxygen", "get_doxygen_after", "return_token", "return_tokens"):
+            continue
+        cfg = CFG(fn)
+        acq = [n for n in cfg.nodes if n.kind == "stmt" and isinstance(n.stmt, ast.Assign) and isinstance(n.stmt.value, ast.Call) and is_self_attr(n.stmt.value.func) and n.stmt.value.func.attr in FILTERING and isinstance(n.stmt.targets[0], ast.Name)]
+        bad = []
+        for a in acq:
+            v = a.stmt.targets[0].id
+            seen = set()
+            st = [(s_, 0, False) for s_, lab in a.succ if lab != "exc"]
+            while st:
+                x, pushed, isnone = st.pop()
+                if (x.id, pushed, isnone) in seen:
+                    continue
+                seen.add((x.id, pushed, isnone))
+                stx = x.stmt
+                if x.kind == "stmt" and isinstance(stx, ast.Expr) and isinstance(stx.value, ast.Call) and norm(stx.value.func) in ("self.tokbuf.appendleft",) and stx.value.args and isinstance(stx.value.args[0], ast.Name) and stx.value.args[0].id == v:
+                    pushed += 1
+                if x.kind == "stmt" and isinstance(stx, ast.Return):
+                    returns_tok = isinstance(stx.value, ast.Name) and stx.value.id == v
+                    if isnone:
+                        pass
+                    elif returns_tok and pushed != 0:
+                        bad.append(f"`{short(stx)}` returns a token that was also pushed back (it will be seen twice)")
+                    elif not returns_tok and pushed != 1:
+                        bad.append(f"`{short(stx)}` is reached with the looked-at token pushed back {pushed} time(s) (it is lost, or duplicated)")
+                    continue
+                for s_, lab in x.succ:
+                    if lab == "exc":
+                        continue
+                    nn = isnone
+                    c = x.cond
+                    if x.kind == "test" and c is not None:
+                        t = norm(c)
+                        if t in (f"{v} is None", f"not {v}") and lab == "T":
+                            nn = True
+                        if t in (f"{v} is None", f"not {v}") and lab == "F":
+                            nn = False
+                    st.append((s_, pushed, nn))
+        ctx.ob("R9.2", f"lexer:TokenStream.{name}|looked-at token returned or pushed back exactly once", bool(acq) and not bad,
+               msg=f"{name}: {bad[:1]}", node=fn, mod=lex)
     for name in ("return_token", "return_tokens"):
         fn = meths.get(name)
         txt = norm(fn) if fn else ""
